@@ -90,9 +90,15 @@ class Gateway:
         self.answer_disconnect = True
         self.answer_state = True
         self.connects = 0
+        self.connect_delay = None  # optional callable(n_th_connect) -> seconds the ConnectResponse is delayed
 
-    def _later(self, body):
-        asyncio.get_running_loop().call_soon(self.transport.inject, body)
+    def _later(self, body, delay=0.0):
+        loop = asyncio.get_running_loop()
+        if delay:
+            # a datagram arriving while the socket is closed is lost
+            loop.call_later(delay, lambda: self.transport.transport is not None and self.transport.inject(body))
+        else:
+            loop.call_soon(self.transport.inject, body)
 
     def handle(self, frame, addr):
         b = frame.body
@@ -104,8 +110,9 @@ class Gateway:
                     request_type=b.cri.connection_type,
                     individual_address=None if mgmt else IndividualAddress(7),
                 )
+                delay = self.connect_delay(self.connects) if self.connect_delay else 0.0
                 self._later(ConnectResponse(communication_channel=self.next_channel,
-                                            data_endpoint=HPAI(*GW), crd=crd))
+                                            data_endpoint=HPAI(*GW), crd=crd), delay)
         elif isinstance(b, DisconnectRequest):
             if self.answer_disconnect:
                 self._later(DisconnectResponse(communication_channel_id=b.communication_channel_id))
